@@ -159,16 +159,23 @@ def clause_lines(lines, key, kind, meta, indent="        "):
 
 
 
-LOCAL_RX = re.compile(r"\blet\s+(?:mut\s+)?([a-z_][a-z0-9_]*)\b|\bfor\s+([a-z_][a-z0-9_]*)\s+in\b|\b(?:Some|Ok|Err)\(\s*(?:mut\s+)?([a-z_][a-z0-9_]*)\s*\)\s*=[^=]")
+LOCAL_RX = re.compile(r"\blet\s+(?:mut\s+)?([a-z_][a-z0-9_]*)\b|\bfor\s+([a-z_][a-z0-9_]*)\s+in\b|\b(?:Some|Ok|Err)\(\s*(?:mut\s+)?([a-z_][a-z0-9_]*)\s*\)\s*=[^=]"
+                      r"|\b(?:let|for)\s+\(([^()]*)\)\s*(?:=[^=]|in\b)")
 
 
 def extract_locals(body_text):
     """names bound by `let`, `for .. in`, `if/while let Some(x) =` in textual order (first binding only)."""
     out = []
     for m in LOCAL_RX.finditer(body_text):
-        n = m.group(1) or m.group(2) or m.group(3)
-        if n and n != "_" and n not in out:
-            out.append(n)
+        if m.group(4) is not None:
+            # tuple pattern `let (a, b) = ..` / `for (a, b) in ..`: every plain identifier it binds
+            names = [re.sub(r"^(?:&\s*)?(?:mut\s+)?", "", x.strip()) for x in m.group(4).split(",")]
+            names = [x for x in names if re.fullmatch(r"[a-z_][a-z0-9_]*", x)]
+        else:
+            names = [m.group(1) or m.group(2) or m.group(3)]
+        for n in names:
+            if n and n != "_" and n not in out:
+                out.append(n)
     return out
 
 
